@@ -28,6 +28,7 @@ RULE = (
     "Oracle: the result is the old registry or the new registry (deep equality) - never a read error, never anything else; a completed "
     "save loads as the new registry. For a third of the pairs every state a first crash left behind is the start of a SECOND save that is killed at every operation again (crash, restart, load, save, crash). evaluations counts forked crash runs. Non-trivial = a crash strictly inside a save with old != new "
     "and old not empty; distinct = distinct (old, new) pair."
+    ' Round 6: the save is reached through save(), load()+save(), start()..stop() or the gateway context; the old file may be in the legacy layout (with or without nulls); an enumerated grid of entry point x layout x grow/shrink/same/none.'
 )
 ASSUMPTIONS = [
     "process death with a surviving operating system: bytes handed to write(2) persist, no power-loss reordering",
@@ -180,6 +181,23 @@ HOWS = ("save", "load-save", "stop", "context")
 HOW = ["save"]  # how the process under test reaches its save (set by run_case around the sweeps; read in the forked child)
 
 
+async def _first_save_done(path: str) -> None:
+    """Wait (bounded) until the scheduled saver has written a complete document: the order of file operations is then fixed."""
+    import asyncio
+
+    for _ in range(2000):
+        await asyncio.sleep(0.001)
+        try:
+            with io.open(path, "rb") as fil:  # (read-only opens are not intercepted)
+                data = fil.read()
+            if data and json.loads(data.decode("utf-8")) is not None:
+                # one more turn so that the saver is back in its sleep
+                await asyncio.sleep(0.005)
+                return
+        except (OSError, ValueError):
+            continue
+
+
 async def _flow(gateway: Gateway, new: dict, how: str) -> None:
     """What the process does before it dies: the public ways in which a registry gets saved."""
     import asyncio
@@ -188,16 +206,14 @@ async def _flow(gateway: Gateway, new: dict, how: str) -> None:
         # the README's way: enter the context (load, scheduled saver), the registry changes, leave (final save)
         async with gateway:
             env.install_registry(gateway.nodes, new)  # (before the first await: every save of this run writes the same registry)
-            for _ in range(12):
-                await asyncio.sleep(0)
+            await _first_save_done(gateway.persistence.path)
         return
     if how == "load-save":
         await gateway.persistence.load()
     env.install_registry(gateway.nodes, new)
     if how == "stop":
         await gateway.persistence.start()
-        for _ in range(12):
-            await asyncio.sleep(0)
+        await _first_save_done(gateway.persistence.path)
         await gateway.persistence.stop()
         return
     await gateway.persistence.save()
@@ -283,6 +299,9 @@ def _sweep(scratch: str, path: str, start: dict, saving: dict, allowed: list, ne
     _restore(scratch, start)
     code, ops = _fork(scratch, path, saving, -1, None, True)
     forks = 1
+    if code == 3:
+        # the flow itself raised in the child although nothing was killed (the parent's run of the same flow went through)
+        return fail(f"undisturbed-run-raises-in-child{label}", f"{label}without any crash, saving through '{HOW[0]}' raised in the forked child", nontrivial=True), None, forks, ops, []
     if code != 0:
         raise RuntimeError(f"dry run of save failed in the child (exit {code})")
     if not any(op["kind"] in ("open", "write") for op in ops):
@@ -307,6 +326,8 @@ def _sweep(scratch: str, path: str, start: dict, saving: dict, allowed: list, ne
         _restore(scratch, start)
         code, _ = _fork(scratch, path, saving, crash_at, partial, False)
         forks += 1
+        if code == 3:
+            return fail(f"run-raises-before-crash-point{label}", f"{label}saving through '{HOW[0]}' raised in the child before reaching operation {crash_at} (it did not in the dry run)", nontrivial=True), known_failure, forks, ops, survivors
         if code != 0:
             raise RuntimeError(f"crash child exited with {code}")
         on_disk = None
@@ -390,7 +411,10 @@ def run_case(case: dict) -> Outcome:
             with open(path, "rb") as fil:
                 return fil.read(), env.snapshot(gateway.nodes)
 
-        new_bytes, new_snap = env.run(final_state())
+        try:
+            new_bytes, new_snap = env.run(final_state())
+        except Exception as err:  # noqa: BLE001
+            return fail(f"undisturbed-run-raises:{how}:{type(err).__name__}", f"without any crash, saving through '{how}' raised {err!r}: the registry never reached the file", nontrivial=True)
         allowed = [old_snap, new_snap]
         if old is None and how in ("load-save", "context"):
             allowed = [{}, new_snap]  # load creates the missing file from the (still empty) registry first
